@@ -324,6 +324,10 @@ func LeafValue(r *rand.Rand, s *model.Schema, name string) interface{} {
 		}
 		return float64(float32(r.NormFloat64() * 1e6))
 	case "Float64":
+		if r.Intn(4) == 0 {
+			// single precision data widened to double precision: exactly a float32, but its shortest double text is long
+			return float64(float32(r.NormFloat64() * 10))
+		}
 		return r.NormFloat64() * math.Pow(10, float64(r.Intn(40)-20))
 	case "String":
 		if r.Intn(8) == 0 {
